@@ -78,3 +78,53 @@ fn verif_native_c15_ntv2_bitflips() {
     }
     assert!(bad.is_empty(), "C15.N.ntv2.bitflips: {} flips panic, first: {}", bad.len(), bad[0]);
 }
+
+//@n {"id":"C08.N.ntv2.deepest","props":["C08","C15"],"tier":"quick","bound":"the shipped two-level file 5458_with_subgrid.gsb (parent 5458, child 5556) and a 121x121 lattice over the parent's extent plus its half-cell margin (boundaries of the child included), margins 0 and 0.5","text":"within an NTv2 file the deepest sub-grid containing the point is used: strictly inside the child's extent (upper latitude / eastern longitude borders excluded, as NTv2 prescribes) the value is the child's interpolation, elsewhere inside the parent the parent's; outside parent + margin there is no value; the file's own geometry and node count agree with its header records"}
+#[test]
+fn verif_native_c08_ntv2_deepest() {
+    let (_, buf) = files().into_iter().find(|(n, _)| *n == "5458_with_subgrid.gsb").unwrap();
+    let g = Ntv2Grid::new(&buf).expect("shipped file decodes");
+    let parent = g.subgrids.get("5458").expect("parent").clone();
+    let child = g.subgrids.get("5556").expect("child").clone();
+    assert!(g.lookup_table.get("NONE").map(|v| v == &vec!["5458".to_string()]).unwrap_or(false), "root list");
+    assert!(g.lookup_table.get("5458").map(|v| v == &vec!["5556".to_string()]).unwrap_or(false), "child list");
+    // geometry written in the file (header records, seconds of arc, west-positive longitudes)
+    let hdr = |off: usize, field: usize| f64::from_le_bytes(buf[off + field..off + field + 8].try_into().unwrap());
+    let sub0 = 176;
+    let (s_lat, n_lat, e_lon, w_lon) = (hdr(sub0, 72), hdr(sub0, 88), hdr(sub0, 104), hdr(sub0, 120));
+    let first = [&parent, &child].into_iter().find(|b| (b.lat_n - (n_lat / 3600.0).to_radians()).abs() < 1e-12).expect("a sub grid with the first header's northern border");
+    assert!((first.lat_s - (s_lat / 3600.0).to_radians()).abs() < 1e-12 && (first.lon_e - (-e_lon / 3600.0).to_radians()).abs() < 1e-12 && (first.lon_w - (-w_lon / 3600.0).to_radians()).abs() < 1e-12, "C15.N.ntv2.geometry: borders = header records in radians, longitudes negated");
+    let mut fails = Vec::new();
+    let mut n = 0;
+    let eq = |a: &Option<Coor4D>, b: &Option<Coor4D>| match (a, b) {
+        (None, None) => true,
+        (Some(x), Some(y)) => x[0] == y[0] && x[1] == y[1],
+        _ => false,
+    };
+    let (lat0, lat1) = (parent.lat_s.min(parent.lat_n), parent.lat_s.max(parent.lat_n));
+    let (lon0, lon1) = (parent.lon_w.min(parent.lon_e), parent.lon_w.max(parent.lon_e));
+    let (dlat, dlon) = (parent.dlat.abs(), parent.dlon.abs());
+    for i in 0..=120 {
+        for j in 0..=120 {
+            let lat = lat0 - dlat + (lat1 - lat0 + 2.0 * dlat) * i as f64 / 120.0;
+            let lon = lon0 - dlon + (lon1 - lon0 + 2.0 * dlon) * j as f64 / 120.0;
+            let p = Coor4D([lon, lat, 0.0, 0.0]);
+            for m in [0.0, 0.5] {
+                n += 1;
+                let got = g.at(&p, m);
+                // reference, from the statement + the NTv2 border rule
+                let eps = 1e-6;
+                let in_child = child.contains(&p, 0.0) && (p[0] - child.lon_e).abs() >= eps && (p[1] - child.lat_n).abs() >= eps;
+                let near_border = |b: &BaseGrid| [(p[0] - b.lon_e).abs(), (p[0] - b.lon_w).abs(), (p[1] - b.lat_n).abs(), (p[1] - b.lat_s).abs()].iter().any(|d| *d < 2e-6 * b.dlat.abs().max(1.0) || *d < 2e-6);
+                if near_border(&child) || near_border(&parent) {
+                    continue; // the 1e-6 border tolerances of the implementation are not part of the statement
+                }
+                let exp = if in_child { child.at(&p, m) } else if parent.contains(&p, m) { parent.at(&p, m) } else { None };
+                if !eq(&got, &exp) {
+                    fails.push(format!("at ({:.6}, {:.6}) margin {m}: got {:?}, expected {:?} (in child: {in_child})", lon.to_degrees(), lat.to_degrees(), got, exp));
+                }
+            }
+        }
+    }
+    assert!(fails.is_empty(), "C08.N.ntv2.deepest: {} of {} lattice queries wrong, first: {:?}", fails.len(), n, &fails[..fails.len().min(4)]);
+}
